@@ -5,7 +5,9 @@
 //	                               activeCall / closeNotify protocol run with one thread
 //	T3  `c34 stress <seed> <n>`    n concurrent scenarios in a separately built `-race` binary (race detector,
 //	                               deadlock watchdog, byte-stream preservation) — explored, not proved. Scenario
-//	                               kinds (by id mod 6): graceful, chaos, keyupdate (rig/ku.go), deadline (rig/dl.go)
+//	                               kinds (by id mod 10): graceful, chaos, keyupdate (rig/ku.go), deadline (rig/dl.go),
+//	                               reneg (rig/reneg.go: HelloRequests against a TLS 1.0-1.2 client that is used from
+//	                               many goroutines), tail (rig/tail.go: calls racing the last flight of Handshake)
 package c34
 
 import (
@@ -28,13 +30,21 @@ import (
 
 func init() {
 	zv.Register(&zv.Prop{
-		ID: "C34", Topic: "c34", Gen: gen, Exec: execLine, Timeout: 900 * time.Second,
+		ID: "C34", Topic: "c34", Gen: gen, Exec: execLine, Timeout: 6 * time.Hour, // outer watchdog only: every limit of the rig itself is load-corrected (rig/load.go)
 		Rule: "seq lines: every sequence over {Handshake,Write,Close,CloseWrite} up to length 4 (quick) / 6 (thorough) for TLS 1.2 " +
-			"and 1.3 plus random longer ones; stress lines: batches of 12 seeded concurrent scenarios run under the race detector: 2 graceful, " +
+			"and 1.3 plus random longer ones; stress lines: batches of 20 seeded concurrent scenarios run under the race detector: 2 graceful, " +
 			"6 chaos (TLS 1.2 / 1.3), 2 key-update (TLS 1.3: both ends initiate KeyUpdate with/without update_requested at random points " +
 			"while both ends read and write; optional slow link for the KeyUpdate record) and 2 deadline scenarios (TLS 1.2 / 1.3: a second " +
 			"goroutine fires and clears SetReadDeadline/SetDeadline while a Read is blocked at a chosen split point of a record delivered in " +
-			"pieces); non-trivial = sequence containing a Close or CloseWrite, every stress batch",
+			"pieces), 4 renegotiation scenarios (TLS 1.0 / 1.1 / 1.2 client with RenegotiateFreelyAsClient / OnceAsClient / Never; the peer sends " +
+			"HelloRequests at random points while a reader, 1-3 writers and 2-5 goroutines hammering Handshake / ConnectionState / Read(nil) / " +
+			"VerifyHostname / Set*Deadline use the client Conn; the peer completes the renegotiation (verif hook: exact-stream oracle), answers " +
+			"with a fatal alert, or goes silent and then closes / lets the client deadline expire / waits for Close: watchdog) and 4 " +
+			"handshake-tail scenarios (client or server, TLS 1.2 full / resumed and TLS 1.3: Handshake on a transport that delays its first writes by 0.3-8 ms, with or " +
+			"without working write deadlines, while other goroutines issue CloseWrite / Close / Write / Set*Deadline / ConnectionState / Handshake " +
+			"when the write of the final flight is entered: Handshake may only fail the way a racing Close / expired deadline explains, a successful " +
+			"CloseWrite is seen by the peer as EOF after exactly the acknowledged data); non-trivial = sequence containing a Close or " +
+			"CloseWrite, every stress batch",
 	})
 }
 
@@ -65,11 +75,13 @@ func gen(g *zv.Gen) {
 		}
 		g.Emit(fmt.Sprintf("c34 seq %d %s", 12+g.Rng.Intn(2), b))
 	}
-	// stress batches: 12 scenarios each
-	for i := 0; i < g.N(20, 800); i++ {
-		g.Emit(fmt.Sprintf("c34 stress %d 12", 1+g.Rng.Intn(1<<40)))
+	// stress batches: 20 scenarios each
+	for i := 0; i < g.N(20, 600); i++ {
+		g.Emit(fmt.Sprintf("c34 stress %d %d", 1+g.Rng.Intn(1<<40), batchSize))
 	}
 }
+
+const batchSize = 20
 
 func execLine(line string) zv.Out {
 	f := strings.Fields(line)
@@ -86,7 +98,26 @@ func execLine(line string) zv.Out {
 		if ops == "-" {
 			ops = ""
 		}
+		alone.RLock()
 		out, err := rig.RunSeq(ver, ops)
+		alone.RUnlock()
+		if err == rig.ErrSeqHang {
+			// timing class: only if it happens again in 2 of up to 3 runs with nothing else of this check running
+			alone.Lock()
+			hangs, runs := 0, 0
+			for runs < 3 && hangs < 2 && runs-hangs < 2 {
+				runs++
+				if out, err = rig.RunSeq(ver, ops); err == rig.ErrSeqHang {
+					hangs++
+				} else if err != nil {
+					break
+				}
+			}
+			alone.Unlock()
+			if hangs >= 2 {
+				err = fmt.Errorf("%v [in %d of %d isolated re-runs as well]", rig.ErrSeqHang, hangs, runs)
+			}
+		}
 		if err != nil {
 			// environment trouble (no loopback …) is not a property violation, but must not pass silently either
 			return zv.Out{Go: "rig-error", Viol: "rig: " + err.Error(), Tags: []string{"rig-error"}}
@@ -110,6 +141,9 @@ var (
 	raceOnce sync.Once
 	raceBin  string
 	raceErr  string
+	// alone: read-locked by every case while it runs; write-locked for the isolated re-runs of a scenario that
+	// failed with a symptom of the timing class (nothing else of this check runs meanwhile)
+	alone sync.RWMutex
 )
 
 func goDir() string {
@@ -156,6 +190,7 @@ func buildRace() {
 	cmd := exec.Command("go", "build", "-race", "-tags", "verif", "-o", out, "./props/c34/racecmd")
 	cmd.Dir = d
 	cmd.Env = goEnv()
+	rig.StartLoadMeter()
 	b, err := cmd.CombinedOutput()
 	if err != nil {
 		raceErr = "go build -race failed: " + err.Error() + "\n" + string(b)
@@ -179,9 +214,11 @@ func runRace(args []string, procs string, limit time.Duration) (stdout, stderr s
 	}
 	done := make(chan error, 1)
 	go func() { done <- cmd.Wait() }()
+	stop := make(chan struct{})
+	defer close(stop)
 	select {
 	case err = <-done:
-	case <-time.After(limit):
+	case <-rig.LoadTimer(limit, 0, stop): // load-corrected
 		cmd.Process.Kill()
 		<-done
 		timedOut = true
@@ -192,9 +229,47 @@ func runRace(args []string, procs string, limit time.Duration) (stdout, stderr s
 var violRe = regexp.MustCompile(`(?m)^VIOL (\d+) (.*)$`)
 var scenRe = regexp.MustCompile(`SCENARIO (\d+) (\w+) (\d+)`)
 
-func isTimeoutClass(v string) bool {
-	return strings.Contains(v, "deadlock:") || strings.Contains(v, "did not reach EOF")
+// Symptoms of the TIMING class: anything that a starved machine could produce on a correct tree although every
+// limit of the rig is load-corrected — hangs (watchdog, stall, runner limit) and every error text that speaks of a
+// timeout (the library's own 5 s close_notify deadline is in real time). They are reported only if the scenario,
+// re-run ALONE (no other case of this check running, same GOMAXPROCS), fails the same way in 2 of up to 3 runs.
+// Data races and value mismatches (wrong bytes, wrong EOF, HandshakeComplete=false between two successes, …) are
+// reported at once. The stale-timeout oracle of the deadline scenarios is a value mismatch: it compares a returned
+// timeout with the deadlines the scenario itself had in force.
+func timingFamily(v string) string {
+	switch {
+	case strings.Contains(v, "although no deadline was in force"):
+		return ""
+	case strings.Contains(v, "deadlock:"), strings.Contains(v, "did not reach EOF"), strings.Contains(v, "stalled:"),
+		strings.Contains(v, "runner did not finish"), strings.Contains(v, "rig:"):
+		return "hang"
+	case strings.Contains(v, "i/o timeout"), strings.Contains(v, "timeout"), strings.Contains(v, "timed out"), strings.Contains(v, "deadline exceeded"):
+		return "timeout"
+	}
+	return ""
 }
+
+// raceReport extracts the first data-race report of a runner's stderr ("" if none).
+func raceReport(se string) string {
+	i := strings.Index(se, "WARNING: DATA RACE")
+	if i < 0 {
+		return ""
+	}
+	scen := "?"
+	if ms := scenRe.FindAllStringSubmatch(se[:i], -1); len(ms) > 0 {
+		scen = strings.Join(ms[len(ms)-1][1:], " ")
+	}
+	rep := se[i:]
+	if j := strings.Index(rep[1:], "=================="); j > 0 {
+		rep = rep[:j+1]
+	}
+	return "data race reported by the race detector in scenario " + scen + " (replay: c34 one " + strings.Fields(scen)[0] + " 1):\n" + summarise(rep)
+}
+
+const (
+	batchLimit = 600 * time.Second // load-corrected, see runRace
+	oneLimit   = 400 * time.Second
+)
 
 func execStress(kind, a, b string) zv.Out {
 	raceOnce.Do(buildRace)
@@ -211,56 +286,80 @@ func execStress(kind, a, b string) zv.Out {
 	if kind == "one" {
 		args = []string{"one", a}
 	}
-	so, se, werr, to := runRace(args, procs, 600*time.Second)
+	alone.RLock()
+	so, se, werr, to := runRace(args, procs, batchLimit)
+	alone.RUnlock()
 	tags := []string{"stress-batch", "GOMAXPROCS=" + procs}
 	tags = append(tags, fmt.Sprintf("scenarios-ok=%s", bucket(strings.Count(so, "\nOK ")+btoi(strings.HasPrefix(so, "OK ")))))
-	for _, m := range []string{"graceful 12", "graceful 13", "chaos 12", "chaos 13", "keyupdate 13", "deadline 12", "deadline 13"} {
+	for _, m := range []string{"graceful 12", "graceful 13", "chaos 12", "chaos 13", "keyupdate 13", "deadline 12", "deadline 13",
+		"reneg 10", "reneg 11", "reneg 12", "tail 12", "tail 13"} {
 		if strings.Contains(so, " "+m+" ") {
 			tags = append(tags, "ran:"+strings.Replace(m, " ", "/tls", 1))
 		}
 	}
 	tags = append(tags, modeTags(so)...)
-	if i := strings.Index(se, "WARNING: DATA RACE"); i >= 0 {
-		scen := "?"
-		if ms := scenRe.FindAllStringSubmatch(se[:i], -1); len(ms) > 0 {
-			scen = strings.Join(ms[len(ms)-1][1:], " ")
-		}
-		rep := se[i:]
-		if j := strings.Index(rep[1:], "=================="); j > 0 {
-			rep = rep[:j+1]
-		}
-		return zv.Out{Viol: "data race reported by the race detector in scenario " + scen + " (replay: c34 one " + strings.Fields(scen)[0] + " 1):\n" + summarise(rep),
-			Tags: append(tags, "DATA-RACE")}
+	if r := raceReport(se); r != "" {
+		return zv.Out{Viol: r, Tags: append(tags, "DATA-RACE")}
 	}
-	if to {
-		return zv.Out{Viol: "stress runner did not finish within 600 s\n" + tail(se, 800), Tags: append(tags, "runner-timeout")}
-	}
+	// the failing scenario and its symptom
+	id, v := "", ""
 	if m := violRe.FindStringSubmatch(so); m != nil {
-		v := m[2]
-		if isTimeoutClass(v) && kind != "one" {
-			// a stall must reproduce in 2 of 3 runs before it is reported (DESIGN §5a risk 5)
-			again := 0
-			for k := 0; k < 2; k++ {
-				so2, _, _, to2 := runRace([]string{"one", m[1]}, procs, 300*time.Second)
-				if m2 := violRe.FindStringSubmatch(so2); to2 || (m2 != nil && isTimeoutClass(m2[2])) {
-					again++
-				}
-			}
-			if again == 0 {
-				return zv.Out{Tags: append(tags, "stall-not-reproduced")}
-			}
-			v += fmt.Sprintf(" [reproduced in %d of 2 re-runs]", again)
+		id, v = m[1], m[2]
+	} else if to {
+		v = fmt.Sprintf("stress runner did not finish within %v (load-corrected)", batchLimit)
+		if ms := scenRe.FindAllStringSubmatch(se, -1); len(ms) > 0 {
+			id = ms[len(ms)-1][1]
+			v += ": stuck in scenario " + strings.Join(ms[len(ms)-1][1:], " ")
 		}
-		return zv.Out{Viol: "scenario " + m[1] + " (replay: c34 one " + m[1] + " 1): " + v, Tags: append(tags, "SCENARIO-VIOLATION")}
-	}
-	if werr != nil || !strings.Contains(so, "done") {
+	} else if werr != nil || !strings.Contains(so, "done") {
 		return zv.Out{Viol: "stress runner failed: " + fmt.Sprint(werr) + " " + tail(so, 400) + "\n" + tail(se, 1500), Tags: append(tags, "runner-failed")}
 	}
-	return zv.Out{Tags: tags}
+	if v == "" {
+		return zv.Out{Tags: tags}
+	}
+	fam := timingFamily(v)
+	if fam == "" || kind == "one" || id == "" {
+		if id == "" {
+			return zv.Out{Viol: v + "\n" + tail(se, 800), Tags: append(tags, "runner-timeout")}
+		}
+		return zv.Out{Viol: "scenario " + id + " (replay: c34 one " + id + " 1): " + v, Tags: append(tags, "SCENARIO-VIOLATION")}
+	}
+	// timing class: re-run the scenario alone, up to 3 times; report if it fails the same way twice
+	alone.Lock()
+	defer alone.Unlock()
+	same, runs := 0, 0
+	for runs < 3 && same < 2 && runs-same < 2 {
+		runs++
+		so2, se2, _, to2 := runRace([]string{"one", id}, procs, oneLimit)
+		if r := raceReport(se2); r != "" {
+			return zv.Out{Viol: r + "\n(isolated re-run after: " + v + ")", Tags: append(tags, "DATA-RACE")}
+		}
+		v2 := ""
+		if m2 := violRe.FindStringSubmatch(so2); m2 != nil {
+			v2 = m2[2]
+		} else if to2 {
+			v2 = "stress runner did not finish"
+		}
+		switch {
+		case v2 == "":
+		case timingFamily(v2) == "":
+			// a symptom that is not a matter of time: reported as it is
+			return zv.Out{Viol: "scenario " + id + " (replay: c34 one " + id + " 1): " + v2 + "\n(isolated re-run after: " + v + ")", Tags: append(tags, "SCENARIO-VIOLATION")}
+		case timingFamily(v2) == fam:
+			same++
+		}
+	}
+	if same < 2 {
+		return zv.Out{Tags: append(tags, "timing-symptom-not-reproduced-in-isolation:"+fam)}
+	}
+	return zv.Out{Viol: fmt.Sprintf("scenario %s (replay: c34 one %s 1): %s [same symptom in %d of %d isolated re-runs]", id, id, v, same, runs),
+		Tags: append(tags, "SCENARIO-VIOLATION")}
 }
 
 var (
 	kuRe = regexp.MustCompile(`(?m)^OK \d+ keyupdate .* keyupdates=(\d+) requested=(\d+) slowlink=(\d+)`)
+	rnRe = regexp.MustCompile(`(?m)^OK \d+ reneg (\d+) .* peer=([\w-]+) policy=(\w+) helloreqs=(\d+) renegs=(\d+) refused=(\d+) writeretries=(\d+)`)
+	tlRe = regexp.MustCompile(`(?m)^OK \d+ tail (\d+) .* x=(\w+) resumed=(\w+) slow=\w+ racers=(\S+) disruptive=(\w+) nodeadlines=(\w+) closewriteok=(\w+)`)
 	dlRe = regexp.MustCompile(`(?m)^OK \d+ deadline .* timeouts=(\d+) gates=\[([\d ]+)\] gatetimeouts=\[([\d ]+)\] spans=(\d+) alertgates=(\d+) keyupdates=(\d+)`)
 )
 
@@ -298,6 +397,37 @@ func modeTags(so string) []string {
 			}
 		}
 	}
+	for _, m := range rnRe.FindAllStringSubmatch(so, -1) {
+		if m[4] != "0" {
+			set["reneg:HelloRequest-sent:peer="+m[2]] = true
+			set["reneg:policy="+m[3]] = true
+		}
+		if m[5] != "0" {
+			set["reneg:renegotiation-completed-under-concurrent-use"] = true
+		}
+		if m[6] != "0" {
+			set["reneg:declined-by-the-client"] = true
+		}
+		if m[7] != "0" {
+			set["reneg:Write-met-the-cleared-handshake-flag-and-was-retried"] = true
+		}
+	}
+	for _, m := range tlRe.FindAllStringSubmatch(so, -1) {
+		end := m[2] + "/tls" + m[1]
+		if m[3] == "true" {
+			end += "-resumed"
+		}
+		set["tail:"+end] = true
+		for _, k := range strings.Split(m[4], "+") {
+			set["tail:racing-call:"+k] = true
+		}
+		if m[6] == "true" {
+			set["tail:transport-ignores-write-deadlines"] = true
+		}
+		if m[7] == "true" {
+			set["tail:CloseWrite-succeeded-while-racing-Handshake:"+end] = true
+		}
+	}
 	var out []string
 	for k := range set {
 		out = append(out, k)
@@ -314,10 +444,10 @@ func btoi(b bool) int {
 }
 
 func bucket(n int) string {
-	if n >= 12 {
-		return "12"
+	if n >= batchSize {
+		return fmt.Sprint(batchSize)
 	}
-	return "<12"
+	return fmt.Sprintf("<%d", batchSize)
 }
 
 func tail(s string, n int) string {
